@@ -2,7 +2,10 @@
 //! ($VERIF_REPO, default /repo).
 use std::io::Write;
 fn main() {
-    let repo = std::env::var("VERIF_REPO").unwrap_or_else(|_| "/repo".to_string());
+    // default spelled with a trailing slash so that bin/senstest's rewrite of
+    // the literal in a scratch copy of the harness applies here too
+    let repo = std::env::var("VERIF_REPO").unwrap_or_else(|_| "/repo/".to_string());
+    let repo = repo.trim_end_matches('/').to_string();
     println!("cargo:rerun-if-env-changed=VERIF_REPO");
     let src = format!("{repo}/dropshot_endpoint/src");
     let out = std::path::PathBuf::from(std::env::var("OUT_DIR").unwrap()).join("mods.rs");
